@@ -213,5 +213,17 @@ theorem vstep_capacity (g : Nat → Nat → Nat) (hg : ∀ n c, n ≤ g n c) {h 
     simp only [vstep, bind_eq_ok, pure_eq_ok, Except.ok.injEq, Prod.mk.injEq] at he
     obtain ⟨_, _, _, rfl, _⟩ := he
     exact same rfl rfl (Nat.le_refl _)
+  | insertSelf pos a b =>
+    simp only [vstep, insertSelf, bind_eq_ok, pure_eq_ok, Except.ok.injEq, Prod.mk.injEq] at he
+    obtain ⟨⟨x, y⟩, hab, rfl, rfl, _⟩ := he
+    split at hab
+    · cases hab
+    · split at hab
+      · cases hab
+      · split at hab
+        · simp only [Except.ok.injEq, Prod.mk.injEq] at hab
+          obtain ⟨_, rfl⟩ := hab
+          exact same rfl rfl (Nat.le_refl _)
+        · exact (insertGen_fits g hg hab).2
 
 end Fcppt.C07
